@@ -116,13 +116,16 @@ def subjects(tier):
                 frames.append(_fspec('Frame', k, rows, lay, index=next(idx_cycle), columns=next(col_cycle)))
     pairs = ['ii', 'ff', 'if', 'fO', 'UU', 'bM', 'OO'] if not thorough else [''.join(p) for p in itertools.product('ifbUOM', repeat=2)]
     for kinds in pairs:
-        for lay in _lays(kinds, 3):
+        ls = _lays(kinds, 3)
+        if not thorough and kinds not in ('if', 'ff'):
+            ls = [ls[0], ls[-1]]
+        for lay in ls:
             frames.append(_fspec('Frame', kinds, 3, lay, index=next(idx_cycle), columns=next(col_cycle)))
     triples = ['iif', 'fUO', 'fff', 'bif'] if not thorough else ['iif', 'fUO', 'fff', 'bif', 'OOO', 'MiM', 'UfU', 'ibb', 'fOf', 'iii', 'Mff']
     for kinds in triples:
         ls = _lays(kinds, 3)
         if not thorough:
-            ls = ls[::2]
+            ls = ls[::3]
         for lay in ls:
             frames.append(_fspec('Frame', kinds, 3, lay, index=next(idx_cycle), columns=next(col_cycle)))
     if thorough:
@@ -173,6 +176,20 @@ def subjects(tier):
 # ---------------------------------------------------------------------------------------------
 # state and result walking
 
+def snap(c):
+    """bounded.common.snapshot, except that hierarchical labels go through arr_snap so that NaN/NaT labels compare equal to
+    themselves (common.snapshot keeps raw tuples for IndexHierarchy)"""
+    import static_frame as sf
+    if isinstance(c, sf.IndexHierarchy):
+        return ('IH', type(c).__name__, c.name, arr_snap(c.values), c.depth, tuple(str(d) for d in c.dtypes.values))
+    if isinstance(c, sf.Frame) and (c.index.depth > 1 or c.columns.depth > 1):
+        base = snapshot(c.relabel(index=sf.IndexAutoFactory if c.index.depth > 1 else None, columns=sf.IndexAutoFactory if c.columns.depth > 1 else None))
+        return (base, snap(c.index), snap(c.columns))
+    if isinstance(c, sf.Series) and c.index.depth > 1:
+        return ('Series', type(c).__name__, c.name, snap(c.index), arr_snap(c.values))
+    return snapshot(c)
+
+
 def state(c):
     """deep value + flag state"""
     from static_frame.core.type_blocks import TypeBlocks
@@ -182,7 +199,7 @@ def state(c):
     if isinstance(c, ArrayGO):
         v = c.values
         return ('ArrayGO', arr_snap(v), bool(v.flags.writeable))
-    return (snapshot(c), tuple(bool(a.flags.writeable) for a in reachable_arrays(c)))
+    return (snap(c), tuple(bool(a.flags.writeable) for a in reachable_arrays(c)))
 
 
 def content(c):
@@ -496,6 +513,12 @@ def _iter_variants(name, calls):
     return o
 
 
+def _ones_ro(n):
+    a = np.ones(n)
+    a.flags.writeable = False
+    return a
+
+
 def _ident(*a):
     return a[-1]
 
@@ -703,7 +726,7 @@ def ops_frame():
         o.extend(_iter_variants(nm, gl))
     win = [('s2', lambda c: ((), dict(size=2))), ('s2_axis1', lambda c: ((), dict(size=2, axis=1))),
            ('s2_unsized', lambda c: ((), dict(size=2, step=2, window_sized=False, label_shift=-1))),
-           ('s1_func', lambda c: ((), dict(size=2, window_func=np.ones)))]
+           ('s2_func', lambda c: ((), dict(size=2, window_func=_ones_ro)))]
     for nm in ('iter_window', 'iter_window_items', 'iter_window_array', 'iter_window_array_items'):
         o.extend(_iter_variants(nm, win))
     # exporters
@@ -903,7 +926,7 @@ def ops_series():
     o.extend(_iter_variants('iter_group_labels', gl))
     o.extend(_iter_variants('iter_group_labels_items', gl[:1]))
     win = [('s2', lambda c: ((), dict(size=2))), ('s2_unsized', lambda c: ((), dict(size=2, step=2, window_sized=False, label_shift=-1))),
-           ('s2_func', lambda c: ((), dict(size=2, window_func=np.ones)))]
+           ('s2_func', lambda c: ((), dict(size=2, window_func=_ones_ro)))]
     for nm in ('iter_window', 'iter_window_items', 'iter_window_array', 'iter_window_array_items'):
         o.extend(_iter_variants(nm, win))
     A('ctor', 'Series', lambda c, X: sf.Series(c))
@@ -1212,6 +1235,7 @@ def check_result(rep, res, tail, what, rp, live_arrays, skip_bare=False, roundtr
     arrays, conts = [], []
     collect(res, arrays, conts)
     n = 0
+    clean = True
     for path, a in arrays:
         if path == 'pandas':  # array obtained from a pandas object: not required to be read-only, but must not alias
             if a.flags.writeable and a.size and any(np.shares_memory(a, s) for s in live_arrays):
@@ -1229,8 +1253,9 @@ def check_result(rep, res, tail, what, rp, live_arrays, skip_bare=False, roundtr
             if shares and k in rep.failures and 'SHARES MEMORY' not in rep.failures[k]['what']:
                 del rep.failures[k]  # prefer the aliased witness for the same key
             rep.fail(k, msg, dict(rp, key=k))
+            clean = False
             break
-    return len(arrays), conts
+    return len(arrays), conts, clean
 
 
 def eval_case(rep, spec, c, X, snaps, op, thorough, dcounter, only_derived=None):
@@ -1249,12 +1274,12 @@ def eval_case(rep, spec, c, X, snaps, op, thorough, dcounter, only_derived=None)
     except BaseException as e:  # SystemExit etc. from the operation: still an observation
         raised = e
     live_arrays = subj_arrays(X.live)
-    n_arr, conts = check_result(rep, res, tail, what, rp, live_arrays, skip_bare=(root in ('np', 'ufunc') or variant == 'rarray'),
+    n_arr, conts, clean = check_result(rep, res, tail, what, rp, live_arrays, skip_bare=(root in ('np', 'ufunc') or variant == 'rarray'),
                                 roundtrip=root in ROUNDTRIP_ROOTS)
     # (d) round trips
     if root in ROUNDTRIP_ROOTS and variant != 'memo':
-        ok = raised is None and type(res) is type(c) and state(res) == snaps[0]
-        rep.check(ok, f'C01:roundtrip:{tail}', f'{what}: round trip does not reproduce class/content/flags ({raised!r})', dict(rp, key=f'C01:roundtrip:{tail}'))
+        ok = raised is None and type(res) is type(c) and snap(res) == snaps[0][0]
+        rep.check(ok, f'C01:roundtrip:{tail}', f'{what}: round trip does not reproduce class/content ({raised!r})', dict(rp, key=f'C01:roundtrip:{tail}'))
     intact = True
     for (role, L), before in zip(X.live, snaps):
         try:
@@ -1269,7 +1294,8 @@ def eval_case(rep, spec, c, X, snaps, op, thorough, dcounter, only_derived=None)
     rep.count(distinct_key=(repr(spec), root, variant) if nontrivial else None,
               sample=dict(subject=spec, op=f'{root}({variant})', raised=type(raised).__name__ if raised else None, arrays_checked=n_arr))
     # second step: operations on containers derived from the subject
-    if intact and conts:
+    conts = [d for d in conts if not any(d is L for _, L in X.live)]
+    if intact and conts and clean:  # follow-up steps only on results that passed (no cascades)
         dops = derived_ops()
         if only_derived is not None:
             chosen = [d for d in dops if d[0] == only_derived]
@@ -1288,7 +1314,7 @@ def eval_case(rep, spec, c, X, snaps, op, thorough, dcounter, only_derived=None)
                 draised = e
             dtail = f'{fam_of(d)}.{DERIVED_ROOT.get(dname, "derived." + dname)}'
             drp = dict(rp, derived=dname)
-            dn, _ = check_result(rep, dres, dtail, f'{what} -> result.{dname}', drp, live_arrays, roundtrip=dname in ROUNDTRIP_ROOTS)
+            dn, _, _ = check_result(rep, dres, dtail, f'{what} -> result.{dname}', drp, live_arrays, roundtrip=dname in ROUNDTRIP_ROOTS)
             for (role, L), before in zip(X.live, snaps):
                 try:
                     after = state(L)
@@ -1363,7 +1389,11 @@ class Src:
 
     def scribble(self):
         for b in self.bases:
-            b[...] = ALT[self.kind](b)
+            if b.dtype.names:
+                for n in b.dtype.names:
+                    b[n] = ALT[self.kind](b[n])
+            else:
+                b[...] = ALT[self.kind](b)
 
 
 def ctor_table():
@@ -1423,9 +1453,7 @@ def ctor_table():
     reg('Frame.from_element_labels')(lambda s: sf.Frame.from_element(0, index=s.a1(unique=True), columns=s.a1(2, unique=True)))
     reg('Frame.from_structured_array')(lambda s: _structured(s))
     reg('Frame.from_pandas')(lambda s: _from_pandas(s, False))
-    reg('Frame.from_pandas_own')(lambda s: _from_pandas(s, True))
     reg('Series.from_pandas')(lambda s: _series_from_pandas(s, False))
-    reg('Series.from_pandas_own')(lambda s: _series_from_pandas(s, True))
     reg('Frame.TypeBlocks')(lambda s: sf.Frame(TypeBlocks.from_blocks((s.a1(), s.a2())), own_data=True))
     reg('TypeBlocks.from_blocks_1d')(lambda s: TypeBlocks.from_blocks(s.a1()))
     reg('TypeBlocks.from_blocks_2d')(lambda s: TypeBlocks.from_blocks(s.a2()))
@@ -1476,7 +1504,7 @@ def _structured(s):
     sa['x'] = a
     sa['y'] = a
     s.bases.append(sa)
-    s.scribble_structured = True
+    s.given.append(sa)
     return sf.Frame.from_structured_array(sa)
 
 
@@ -1636,7 +1664,7 @@ def run(repo, task):
                       '(constructor, array kind, ownership mode) triple; non-trivial when the call returned and >= 1 ndarray was reachable from the '
                       'result (flags checked), or it raised on a non-empty container (frame condition after failure), or a caller-held array was consumed',
                  bound=('Frame/FrameHE/FrameGO <= 3 columns x 3 rows' if not thorough else 'Frame/FrameHE/FrameGO <= 4 columns x 3 rows') +
-                       ', all dtype-safe block layouts (every second one for 3 columns in quick), Series/SeriesHE, Index/IndexDate/IndexYearMonth/IndexGO, '
+                       ', all dtype-safe block layouts (all for kinds if/ff, first+last for other 2-column kinds and every third for 3 columns in quick), Series/SeriesHE, Index/IndexDate/IndexYearMonth/IndexGO, '
                        'IndexHierarchy depth <= 3; dtype kinds ' + ('ifbUOM' if not thorough else 'ifbUOMmcSu') +
                        '; flat/auto/int/date/hierarchical labels; 0-sized shapes; every public name from dir() + argument tables '
                        '(see catalogue()); follow-up operations on results: ' + ('all 15' if thorough else '2 of 15, rotating') +
